@@ -365,7 +365,7 @@ func truncate(s string, n int) string {
 }
 
 // solveAll discharges obligations in parallel.
-func solveAll(results []*FuncResult, dir string, timeoutS int, workers int, crossCheck bool) {
+func solveAll(results []*FuncResult, dir string, timeoutS int, workers int, crossCheck bool, knownNames map[string]bool) {
 	type job struct {
 		e   *Engine
 		o   *Oblig
@@ -386,7 +386,11 @@ func solveAll(results []*FuncResult, dir string, timeoutS int, workers int, cros
 		go func() {
 			defer wg.Done()
 			for j := range ch {
-				j.e.solve(j.o, dir, j.idx, timeoutS, crossCheck && j.o.kind != "cover")
+				to := timeoutS
+				if knownNames[j.o.name] && to > 6 {
+					to = 6 // a listed finding is expected to fail: do not spend the full budget on it
+				}
+				j.e.solve(j.o, dir, j.idx, to, crossCheck && j.o.kind != "cover")
 			}
 		}()
 	}
@@ -397,7 +401,7 @@ func solveAll(results []*FuncResult, dir string, timeoutS int, workers int, cros
 	wg.Wait()
 	// second chance, one at a time (no CPU contention), for anything that timed out or came back unknown
 	for _, j := range jobs {
-		if j.o.kind == "cover" || j.o.status == "unsat" || j.o.status == "sat" {
+		if j.o.kind == "cover" || j.o.status == "unsat" || j.o.status == "sat" || knownNames[j.o.name] {
 			continue
 		}
 		first := j.o.status
